@@ -32,7 +32,7 @@ from ..lin import Facts
 from ..flow import Flow, name_pred
 from .. import astq
 from ._c02_fh import FHInterp, Obj, TV, Mask, Sel, SymV, AlwaysRaises, exc_name, FH_PATH
-from ._c02_fh import run as irun, no_result, rejects_for_sure
+from ._c02_fh import run as irun, no_result, rejects_for_sure, rejected_inputs
 
 SK = "sktime/forecasting/base/_sktime.py"
 C = Lin.sym("cutoff")
@@ -167,6 +167,15 @@ class PInterp(FHInterp):
             return Opq("elements-in", [self.undelegate(args[0]), self.undelegate(args[1])])
         if ext in ("numpy.all", "builtins.all") and len(args) == 1 and isinstance(args[0], Opq) and args[0].tag == "elements-in":
             return Opq("subset", args[0].args)
+        if ext == "numpy.full" and len(args) == 2 and isinstance(args[1], Opq) and args[1].tag == "attr:nan":
+            n = as_lin_val(args[0])
+            return Opq("empty-array") if n is not None and n.is_const() and n.const == 0 else Opq("nan-fill", [args[0]])
+        if ext in ("numpy.hstack", "numpy.concatenate", "numpy.append") and args:
+            parts = args[0].items if isinstance(args[0], Tup) else list(args)
+            if any(isinstance(x, Opq) and x.tag == "nan-fill" for x in parts) and not all(isinstance(x, Opq) and x.tag == "nan-fill" for x in parts):
+                return Opq("data-with-nan-padding", list(parts))
+        if ext in ("numpy.nanmean", "numpy.nanmedian", "numpy.nansum", "numpy.nanmin", "numpy.nanmax") and args:
+            return Opq("nan-ignoring:" + ext.split(".")[-1], [strip_padding(args[0])])
         if ext == "numpy.zeros" and len(args) == 1 and as_lin_val(args[0]) is not None:
             return Arr("zeros@%d" % call.lineno, as_lin_val(args[0]), "array")
         if ext in ("numpy.column_stack",) and args:
@@ -307,6 +316,29 @@ class PInterp(FHInterp):
             if isinstance(idx, K) and isinstance(idx.v, str):
                 return pv.then("column")
         return FHInterp.ev_Subscript(self, e, st, frame)
+
+
+def strip_padding(v):
+    """The value as seen by a NaN-ignoring reduction: the padding does not influence the result."""
+    if isinstance(v, Opq):
+        if v.tag == "data-with-nan-padding":
+            return Opq("data", [a for a in v.args if not (isinstance(a, Opq) and a.tag == "nan-fill")])
+        return Opq(v.tag, [strip_padding(a) for a in v.args])
+    if isinstance(v, Tup):
+        return Tup([strip_padding(a) for a in v.items])
+    return v
+
+
+def carries_padding(v):
+    if isinstance(v, Opq):
+        return v.tag == "data-with-nan-padding" or any(carries_padding(a) for a in v.args)
+    if isinstance(v, Tup):
+        return any(carries_padding(a) for a in v.items)
+    if isinstance(v, Gather):
+        return carries_padding(v.base)
+    if isinstance(v, PV):
+        return carries_padding(v.data)
+    return False
 
 
 # ------------------------------------------------------------------------------ helpers
@@ -466,6 +498,8 @@ def rule_r1(ctx, repo):
         if not any(n == name for (n, _) in seen):
             raise AnalysisError("anchor missing: %s" % name)
 
+    r1_update_moves_cutoff(ctx, repo)
+
     # other call sites of _set_cutoff
     known = {id(fn) for (k, fn, cls) in seen.values()}
     for m in repo.non_test_modules():
@@ -492,6 +526,66 @@ def rule_r1(ctx, repo):
             r1_tuner(ctx, repo, cls)
         else:
             ctx.violation("R1", cons, "%s overrides %s" % (cls.name, ", ".join(own)), loc)
+
+
+def r1_update_moves_cutoff(ctx, repo):
+    """Every ``update`` of a forecaster that keeps its own cutoff reaches ``_update_y_X`` with the data it was given on
+    every path to a normal return -- whatever ``update_params`` says (the index of later forecasts is built from it)."""
+    skc = repo.cls(SK + ":_SktimeForecaster")
+    flow = Flow(repo)
+    seen = {}
+    for cls in [skc] + repo.subclasses(skc):
+        hit = repo.lookup_method(cls, "update")
+        if hit is not None:
+            seen.setdefault(id(hit[1]), (hit[0], hit[1], cls))
+    for _, (k, fn, cls) in sorted(seen.items(), key=lambda kv: kv[1][0].qual):
+        params = astq.param_names(fn, skip_self=True)
+        cons = "%s.update:moves-cutoff" % k.name
+        loc = ctx.loc(k.module, fn)
+        if not params:
+            ctx.undecided("R1", cons, "update without a data parameter", loc)
+            continue
+        cfgs = {}
+
+        def pred(t, call, _params=params):
+            if t.name != "_update_y_X" or t.kind != "method" or t.func is None:
+                return False
+            b = astq.bind_call(t.func, call, skip_self=True)
+            a = (b or {}).get("y")
+            return isinstance(a, ast.Name)
+
+        ok = flow.must_call(fn, pred, k.module, cls, k)
+        # the argument handed over at this level is the data parameter itself (not reassigned)
+        direct = [c for c in astq.calls(fn) if astq.call_name(c) in ("_update_y_X", "update")
+                  and isinstance(c.func, ast.Attribute) and (
+                      (isinstance(c.func.value, ast.Name) and c.func.value.id == fn.args.args[0].arg)
+                      or (isinstance(c.func.value, ast.Call) and dotted(c.func.value.func) == "super"))]
+        g = flow.cfg(fn)
+
+        def still_parameter(call, name=params[0]):
+            """No assignment to the parameter can reach the call."""
+            cn = g.node_of(call)
+            if cn is None:
+                return False
+            for n in g.nodes:
+                writes = n.stmt is not None and not isinstance(n.stmt, (ast.If, ast.While)) and any(
+                    isinstance(x, ast.Name) and x.id == name and isinstance(x.ctx, (ast.Store, ast.Del))
+                    for e in ([n.stmt.target] if isinstance(n.stmt, (ast.For, ast.AugAssign)) else n.exprs) for x in ast.walk(e))
+                if writes and (n is cn or g.may_reach_after(n, lambda m: m is cn)):
+                    return False
+            return True
+
+        passes = [c for c in direct if c.args and isinstance(c.args[0], ast.Name) and c.args[0].id == params[0]
+                  and still_parameter(c)]
+        if ok and passes:
+            ctx.ok("R1", cons, "the data passed to update reaches _update_y_X on every path", loc)
+        elif not ok:
+            ctx.violation("R1", cons, "some path through %s.update returns without _update_y_X: the forecaster's own cutoff (and "
+                          "remembered data) stay where they were while later forecasts are labelled from that cutoff" % k.name, loc,
+                          witness={"history": "fit(y1); update(y2, update_params=<the value of the skipping path>); predict()"})
+        else:
+            ctx.undecided("R1", cons, "_update_y_X is reached but not with the data parameter `%s` itself" % params[0], loc)
+        _ = cfgs
 
 
 def data_args(fn):
@@ -774,6 +868,13 @@ def judge_site(ctx, repo, cls, name, args_of, no_inline=(), extra=None, want_eve
                 judge_index(ctx, it, rule, cons + ":returned", pv.index, rel, loc, "returned prediction")
         if want_events and n == 0:
             ctx.undecided(rule, cons, "no prediction construction found on the interpreted paths: %r" % ([v for _, v in rets][:2],), loc)
+        # any training index start: no integer cutoff may be refused on the way to the labels
+        recs = [(r.facts, r[0]) for r in it.partial_rejections] + [(r[0].facts, r[1]) for r in raises]
+        for cond, node in rejected_inputs(recs, {"cutoff"})[:1]:
+            ctx.violation(rule, cons + ":every-cutoff", "forecasts are refused for integer cutoffs with %s (raise at line %s): a training "
+                          "series may end at any time point, e.g. 0" % (" and ".join("%r <= 0" % f for f in cond),
+                                                                      getattr(node, "lineno", "?")), loc,
+                          witness={"rejected_cutoffs": [repr(f) + " <= 0" for f in cond]})
 
 
 def judge_delegation(ctx, repo, cls, name, members, extra=None, fh_param="fh", allowed_ops=()):
@@ -1176,6 +1277,13 @@ def rule_r3(ctx, repo):
                                                                            "relative" if rel else "absolute")
                 loc = ctx.loc(k.module, fn)
                 n = judge_steps(ctx, it, cons, [v for _, v in rets], rel, loc)
+                bad = [v for _, v in rets if carries_padding(v)]
+                if strategy == "mean" and seasonal:
+                    ctx.check(not bad, "R3", cons + ":padding-ignored",
+                              "NaN padding added by the method itself is removed by a NaN-ignoring reduction before steps are selected",
+                              "the NaN values the method itself pads the window with (window length not a multiple of sp) reach the "
+                              "selected forecasts through a NaN-propagating operation: finite data gives NaN forecasts", loc,
+                              witness={"input": "window_length=10, sp=4, finite y"})
                 if n == 0:
                     if strategy in ("last", "mean") and not seasonal:
                         ctx.ok("R3", cons, "constant forecast: no step selection on this configuration", loc, nontrivial=False)
